@@ -347,7 +347,7 @@ def check_any(ctx, case):
 
 
 FAMILIES = [
-    Family('single', check_any, strategy=lambda tier: single_case(), n=(1200, 160000)),
-    Family('estimates', check_any, strategy=lambda tier: estimate_case(), n=(500, 60000)),
+    Family('single', check_any, strategy=lambda tier: single_case(), n=(3000, 160000)),
+    Family('estimates', check_any, strategy=lambda tier: estimate_case(), n=(2000, 60000)),
     Family('shipped', check_any, enumerate=enum_shipped),
 ]
